@@ -107,6 +107,10 @@ type Cfg struct {
 	PCTPoints []int64 `json:"pct_points,omitempty"`
 	SchedSeed uint64  `json:"sched_seed,omitempty"`
 	Budget    int64   `json:"step_budget,omitempty"`
+
+	// Intrude: probability (permille) that an interfering call uses the pool between a Put and
+	// the caller's next instruction (single-task engines).
+	Intrude int `json:"intrude_permille,omitempty"`
 }
 
 // Scenario is one explicit, replayable simulated run.
